@@ -1133,7 +1133,18 @@ class StateEngine(object):
                 #print("Terminating branch {}".format(index))
 
                 results = branch_results["results"]
-                results[index] = "__TERMINATED__"
+                if "Index" in branch_info:
+                    results[index] = "__TERMINATED__"
+                else:
+                    """
+                    An event without an Index re-enters a Map state to start
+                    its next block of MaxConcurrency iterations, which will
+                    now never be started, so mark them all as terminated.
+                    """
+                    iterator_start, iterator_end = iterator_range.split(":")
+                    for i in range(int(iterator_start), int(iterator_end)):
+                        if i < len(results) and results[i] == None:
+                            results[i] = "__TERMINATED__"
 
                 if parent_terminated:
                     #print("Terminating parent branch {}".format(parent_index))
